@@ -85,6 +85,22 @@ def poll_leaf(ip, loc, leaf):
         from t4 import sched_point
         yield from sched_point(ip, 'mailbox send ' + sender.kind)
         p.effect('await', 'capacity', sender.kind)
+        live = getattr(p, 'live_mailbox', {}).get(sender.kind)
+        if live is not None:
+            # Tier 4, the actor is an activity of its own: the request goes into its real mailbox (never full: stated bound)
+            rx, actor_act = live
+            if getattr(p, 'fp', None) is not None:
+                p.fp.add(('mailbox', sender.kind))
+            write_loc(loc, Leaf(k, leaf.data, True))
+            if actor_act.state == 'done':
+                p.effect('send-closed', sender.kind, sender.tok)
+                return ready(err(Opaque('SendError')))
+            rx.items.append(req)
+            p.effect('enqueue', sender.kind, sender.tok, req)
+            actor_act.woken = True
+            if actor_act.state == 'parked':
+                actor_act.state = 'ready'
+            return ready(ok(UNIT))
         if may_pend(ip, 'mpsc.send'):
             return PENDING
         write_loc(loc, Leaf(k, leaf.data, True))
@@ -100,6 +116,26 @@ def poll_leaf(ip, loc, leaf):
     if k == 'oneshot.recv':
         cid = leaf.data
         p.effect('await', 'reply', cid)
+        if getattr(p, 'live_oneshots', False) and cid not in getattr(p, 'replies', {}):
+            from t4 import sched_point
+            yield from sched_point(ip, 'reply recv')
+            sent = getattr(p, 'sent', {})
+            if cid in sent:
+                write_loc(loc, Leaf(k, leaf.data, True))
+                p.effect('reply-received', cid)
+                return ready(ok(sent[cid]))
+            if cid in getattr(p, 'dropped_tx', set()) or any(a.state == 'done' for a in getattr(p, 'responder_owners', [])):
+                write_loc(loc, Leaf(k, leaf.data, True))
+                p.effect('recv-closed', cid)
+                return ready(err(Opaque('RecvError')))
+            act = getattr(ip, 'activity', None)
+            if act is not None:
+                w = getattr(p, 'oneshot_waiters', {})
+                w.setdefault(cid, [])
+                if act not in w[cid]:
+                    w[cid].append(act)
+                p.oneshot_waiters = w
+            return PENDING
         if may_pend(ip, 'oneshot.recv'):
             return PENDING
         write_loc(loc, Leaf(k, leaf.data, True))
@@ -112,6 +148,21 @@ def poll_leaf(ip, loc, leaf):
             p.effect('recv-closed', cid)
             return ready(err(Opaque('RecvError')))
         raise Unsupported('oneshot receiver %d polled but the obligation supplies no reply' % cid)
+    if k == 'oneshot.closed' and isinstance(leaf.data, tuple) and leaf.data[0] == 'mailbox':
+        # mpsc::Sender::closed(): resolves once the actor task has ended (its receiver is dropped)
+        from t4 import sched_point
+        yield from sched_point(ip, 'Sender::closed')
+        live = getattr(p, 'live_mailbox', {}).get(leaf.data[1])
+        if live is None:
+            return PENDING
+        rx, actor_act = live
+        if actor_act.state == 'done':
+            write_loc(loc, Leaf(k, leaf.data, True))
+            return ready(UNIT)
+        act = getattr(ip, 'activity', None)
+        if act is not None and act not in actor_act.done_waiters:
+            actor_act.done_waiters.append(act)
+        return PENDING
     if k == 'oneshot.closed':
         # resolves only once the receiving side has gone away
         if getattr(p, 'receiver_dropped', False):
@@ -206,9 +257,27 @@ def drive(ip, loc, max_polls=12):
     raise OutOfBound('future not ready after %d polls' % max_polls)
 
 
+class SharedM(Model):
+    """futures::future::Shared<F>: clones poll one underlying future; its output is kept for all of them"""
+
+    def __init__(self, fut):
+        self.inner = Cell(fut, 'shared-inner')
+        self.state = Cell(None, 'shared-output')
+
+    def ite(self, c, o):
+        return self
+
+
 def poll_future(ip, loc):
     """Future::poll on whatever lives at loc"""
     v = read_loc(loc)
+    if isinstance(v, SharedM):
+        if v.state.v is not None:
+            return ready(v.state.v[0])
+        r = yield from poll_future(ip, Loc(v.inner))
+        if r.discr == 0:
+            v.state.v = (r.payload[0][0],)
+        return r
     if isinstance(v, Leaf):
         r = yield from poll_leaf(ip, loc, v)
         return r
@@ -304,6 +373,8 @@ def _install_base(ctx):
     @M.reg('Sender::closed')
     def sender_closed(ip, pc, args, dt):
         s = read_loc(args[0].loc)
+        if isinstance(s, SenderM):
+            return Leaf('oneshot.closed', ('mailbox', s.kind))
         return Leaf('oneshot.closed', getattr(s, 'cid', None))
 
     @M.reg('Sender::is_closed')
@@ -364,7 +435,7 @@ def _install_base(ctx):
     @M.reg('support::thread_rng_n', 'thread_rng_n')
     def thread_rng_n(ip, pc, args, dt):
         n = concrete_int(args[0].t)
-        k = ip.path.choose(n, 'select start')
+        k = 0 if getattr(ip.path, 'select_in_order', False) else ip.path.choose(n, 'select start')
         ip.path.effect('select-start', k)
         return mk_int(k, 'u32')
 
@@ -521,6 +592,11 @@ def poll_leaf(ip, loc, leaf):          # noqa: F811  (extends the leaf kinds abo
         return ready(UNIT)
     if leaf.kind == 'mpsc.recv':
         rx = read_loc(leaf.data.loc) if isinstance(leaf.data, Ref) else leaf.data
+        if getattr(ip, 'activity', None) is not None:
+            from t4 import sched_point
+            yield from sched_point(ip, 'mailbox recv')
+            if getattr(p, 'fp', None) is not None:
+                p.fp.add(('mailbox', 'recv'))
         if rx.items:
             v = rx.items.pop(0)
             write_loc(loc, Leaf('mpsc.recv', leaf.data, True))
